@@ -13,6 +13,17 @@ package main
 //   C     role 1 comes back on its data folder; emitted as R<c> (own snapshot + log replay) or
 //         I<src>:<c> (own snapshot restored, then the leader's snapshot installed ONTO that state, then
 //         the rest of the log), whichever Raft did (a new snapshot file appears in its folder).
+//
+// Leadership changes (role 0 = whoever leads at that moment, role 3 = the leader stopped last):
+//   0D    the LEADER is shut down (snapshot on shutdown); the two survivors elect a new leader and the
+//         following commits go through it
+//   0K    the leader is stopped WITHOUT a snapshot (its Raft instance is halted first, so the snapshot on
+//         shutdown cannot be taken: what a killed process leaves on disk)
+//   3C    the old leader comes back on its data folder (R<c> / I<src>:<c> as above), 3o its offline read
+//   0Z    every running node is shut down, each followed by its offline read
+//
+// Every emitted token carries `@<k>:<input token>` (k = position in the input script) so that a replay
+// can rebuild the role script; the driver ignores it.
 
 import (
 	"context"
@@ -35,6 +46,10 @@ type netw struct {
 	evs    []string
 	obs    []string
 	submit int
+	cur    int    // position of the input token being executed
+	curTok string // that token
+	oldLdr int    // the leader stopped last (-1: none)
+	annot  bool   // annotate emitted tokens with their input token
 }
 
 func (w *netw) connectAll() {
@@ -51,22 +66,35 @@ func (w *netw) connectAll() {
 	}
 }
 
+// leader waits until every running node names the same running node as leader and that node is in
+// Leader state (after a leader was stopped the survivors learn about the new one at different times).
 func (w *netw) leader() (int, error) {
 	deadline := time.Now().Add(readyTimeout)
 	for time.Now().Before(deadline) {
-		for i, n := range w.nodes {
+		found, agree := -1, true
+		for _, n := range w.nodes {
 			if !n.up {
 				continue
 			}
 			l, err := n.cc.Leader(context.Background())
-			if err == nil {
-				for j, m := range w.nodes {
-					if m.id == l && m.up && m.cc.VerifRaft().State().String() == "Leader" {
-						_ = i
-						return j, nil
-					}
+			if err != nil {
+				agree = false
+				break
+			}
+			j := -1
+			for k, m := range w.nodes {
+				if m.id == l && m.up && m.cc.VerifRaft().State().String() == "Leader" {
+					j = k
 				}
 			}
+			if j < 0 || (found >= 0 && found != j) {
+				agree = false
+				break
+			}
+			found = j
+		}
+		if agree && found >= 0 {
+			return found, nil
 		}
 		time.Sleep(50 * time.Millisecond)
 	}
@@ -84,8 +112,23 @@ func (w *netw) opsUpTo(raftIdx uint64) int {
 }
 
 func (w *netw) emit(tok, obs string) {
+	if w.annot {
+		tok = fmt.Sprintf("%s@%d:%s", tok, w.cur, w.curTok)
+	}
 	w.evs = append(w.evs, tok)
 	w.obs = append(w.obs, obs)
+}
+
+// halt stops a node the way a killed process leaves it: the Raft instance is shut down first, so that
+// Consensus.Shutdown cannot take its snapshot; the stores are then closed. Reports whether that held
+// (no new snapshot file).
+func (w *netw) halt(i int) bool {
+	n := w.nodes[i]
+	before := n.snapshotCount()
+	bi := w.snapIndex(i)
+	n.cc.VerifRaft().Shutdown().Error()
+	n.stop()
+	return n.snapshotCount() == before && w.snapIndex(i) == bi
 }
 
 // waitApplied waits until node i has applied Raft index target.
@@ -115,7 +158,7 @@ func (w *netw) catchUp(i int) error {
 		return infra("node %d: tracker calls of catch-up missing", i)
 	}
 	w.mapl[i] = c
-	// arrival order at the follower's tracker is kept (K29)
+	// arrival order at the follower's tracker is kept: the calls are synchronous
 	cs := "-"
 	if len(calls) > 0 {
 		cs = strings.Join(calls, "+")
@@ -172,6 +215,12 @@ func (w *netw) nodeOfRole(role int) (int, error) {
 	if i, ok := w.role[role]; ok {
 		return i, nil
 	}
+	if role == 3 {
+		if w.oldLdr < 0 {
+			return -1, fmt.Errorf("no stopped leader")
+		}
+		return w.oldLdr, nil
+	}
 	l, err := w.leader()
 	if err != nil {
 		return -1, err
@@ -211,7 +260,12 @@ func runNet(ops []op, events []string) ([]op, []string, []string, error) {
 		return nil, nil, nil, infra("scratch: %v", err)
 	}
 	defer removeAll(base)
-	w := &netw{ops: ops, mapl: make([]int, 3), role: map[int]int{}}
+	w := &netw{ops: ops, mapl: make([]int, 3), role: map[int]int{}, oldLdr: -1}
+	for _, e := range events {
+		if len(e) >= 2 && (e[1] == 'D' || e[1] == 'K' || e[1] == 'Z') {
+			w.annot = true
+		}
+	}
 	defer func() {
 		for _, n := range w.nodes {
 			if n.up {
@@ -248,13 +302,61 @@ func runNet(ops []op, events []string) ([]op, []string, []string, error) {
 			return nil, nil, nil, err
 		}
 	}
-	for _, e := range events {
+	for k, e := range events {
 		if len(e) < 2 {
 			return nil, nil, nil, fmt.Errorf("bad token %s", e)
 		}
+		w.cur, w.curTok = k, e
 		role := int(e[0] - '0')
 		code := e[1:]
 		switch {
+		case code == "D" || code == "K":
+			l, err := w.leader()
+			if err != nil {
+				return nil, nil, nil, err
+			}
+			if err := w.catchUp(l); err != nil {
+				return nil, nil, nil, err
+			}
+			n := w.nodes[l]
+			a := w.opsUpTo(n.cc.VerifRaft().AppliedIndex())
+			if code == "K" {
+				if w.halt(l) {
+					w.emit(fmt.Sprintf("%dK", l), fmt.Sprintf("ok~%d~D~-", a))
+				} else {
+					// a snapshot was written after all: that is a shutdown
+					w.emit(fmt.Sprintf("%dD", l), fmt.Sprintf("ok~%d~D~-", a))
+				}
+			} else {
+				n.stop()
+				res := "err"
+				if n.snapshotCount() > 0 {
+					res = "ok"
+				}
+				w.emit(fmt.Sprintf("%dD", l), fmt.Sprintf("%s~%d~D~-", res, a))
+			}
+			w.oldLdr = l
+		case code == "Z":
+			for i, n := range w.nodes {
+				if !n.up {
+					continue
+				}
+				if err := w.catchUp(i); err != nil {
+					return nil, nil, nil, err
+				}
+				a := w.opsUpTo(n.cc.VerifRaft().AppliedIndex())
+				n.stop()
+				res := "err"
+				if n.snapshotCount() > 0 {
+					res = "ok"
+				}
+				w.emit(fmt.Sprintf("%dd", i), fmt.Sprintf("%s~%d~D~-", res, a))
+				v, err := n.offline()
+				if err != nil {
+					return nil, nil, nil, err
+				}
+				w.emit(fmt.Sprintf("%do", i), fmt.Sprintf("ok~%d~%s~-", w.opsUpTo(w.snapIndex(i)), v))
+			}
 		case code == "a":
 			if err := w.commit(); err != nil {
 				return nil, nil, nil, err
@@ -366,11 +468,63 @@ func runNet(ops []op, events []string) ([]op, []string, []string, error) {
 			return nil, nil, nil, fmt.Errorf("bad token %s", e)
 		}
 	}
-	return ops[:w.next], w.evs, w.obs, nil
+	g := "G-"
+	if w.next > 0 {
+		g = "G" + strings.Repeat("1", w.next) // every op of a net history was acknowledged
+	}
+	return ops[:w.next], w.evs, append([]string{g}, w.obs...), nil
 }
 
 // genNetCase: role-based script.
+// genNetLeaderCase: the leader is shut down or stopped without a snapshot between commits (once or
+// twice); a new leader continues; optionally it snapshots (its log is compacted: the old leader then
+// needs InstallSnapshot); the old leader comes back; everybody catches up; all nodes are shut down and read offline.
+func genNetLeaderCase(r *common.Rng, k int) (int, []op, []string) {
+	nops := r.Range(6, 14)
+	ops := genOps(r, nops, 0)
+	var ev []string
+	left := nops
+	add := func(n int) {
+		if n > left {
+			n = left
+		}
+		for i := 0; i < n; i++ {
+			ev = append(ev, "0a")
+		}
+		left -= n
+	}
+	changes := 1 + k%2
+	for c := 0; c < changes; c++ {
+		add(r.Range(1, 3))
+		if r.Chance(1, 2) {
+			ev = append(ev, "0A")
+		}
+		if r.Chance(1, 2) {
+			ev = append(ev, "0D")
+		} else {
+			ev = append(ev, "0K")
+		}
+		if r.Chance(1, 2) {
+			ev = append(ev, "3o")
+		}
+		add(r.Range(1, 3))
+		if r.Chance(1, 2) {
+			ev = append(ev, "0s")
+			add(r.Range(0, 2))
+		}
+		ev = append(ev, "0A", "3C")
+		add(r.Range(0, 2))
+		ev = append(ev, "0A")
+	}
+	add(left)
+	ev = append(ev, "0A", "0Z")
+	return 3, ops, ev
+}
+
 func genNetCase(r *common.Rng, k int) (int, []op, []string) {
+	if k%2 == 1 {
+		return genNetLeaderCase(r, k/2)
+	}
 	nops := r.Range(6, 14)
 	ops := genOps(r, nops, 0)
 	k1 := r.Range(1, 3)
@@ -397,6 +551,35 @@ func genNetCase(r *common.Rng, k int) (int, []op, []string) {
 // normalizeNet turns the node-numbered tokens of an emitted net case back into a role script
 // (which node leads is only known at run time).
 func normalizeNet(events []string) []string {
+	annotated := false
+	for _, e := range events {
+		if strings.Contains(e, "@") {
+			annotated = true
+		}
+	}
+	if annotated {
+		// `<node><code>@<k>:<input token>`: the input script is the tokens in order of k, one per k
+		var out []string
+		last := ""
+		for _, e := range events {
+			at := strings.Index(e, "@")
+			if at < 0 {
+				continue
+			}
+			kt := strings.SplitN(e[at+1:], ":", 2)
+			if len(kt) != 2 || kt[0] == last {
+				continue
+			}
+			last = kt[0]
+			out = append(out, kt[1])
+		}
+		return out
+	}
+	for _, e := range events {
+		if len(e) >= 2 && (e[1] == 'D' || e[1] == 'K' || e[1] == 'Z' || e[0] == '3') {
+			return events // a role script with leadership changes, as written
+		}
+	}
 	first := byte(0)
 	for _, e := range events {
 		if len(e) >= 2 && e[1] == 'd' {
